@@ -680,6 +680,20 @@ impl<'a> Interp<'a> {
                 );
             }
         }
+        if self.want_trace {
+            let mv = self.sut.metrics();
+            let line = format!(
+                "  state: entries {:?} costs {:?} used {} max {} len {} pending {:?} metrics {:?}",
+                snap.entries.iter().map(|e| (e.index, e.conflict, e.value.serial, dur_ns(e.ttl), st_ns(e.created_at) - T0)).collect::<Vec<_>>(),
+                snap.costs,
+                snap.used,
+                snap.max_cost,
+                snap.len,
+                self.sut.pending().0,
+                mv.map(|m| (m.hits, m.misses, m.keys_added, m.keys_updated, m.keys_evicted, m.cost_added, m.cost_evicted, m.sets_dropped, m.sets_rejected, m.hist_count)),
+            );
+            self.trace.push(line);
+        }
         if self.m.synced {
             self.compare_model(what, &snap);
         }
@@ -1914,6 +1928,9 @@ impl<'a> Interp<'a> {
                 }
                 self.ring_push(index, me.is_some());
                 self.compare_lookup("final sweep", k, got.map(|g| g.0), got.map(|g| g.1), &me, true);
+            }
+            if self.cfg.mode == Mode::Quiescent {
+                while self.op_policy_step() {}
             }
         }
         self.drain(false);
